@@ -10,7 +10,7 @@
    may-alias analysis run from "exactly the variables [params] may reach caller-owned
    buffers".  The per-run obligations are [accepts params (IR of f) = true], one per
    scoped function, evaluated by vm_compute on the regenerated IR ([check_case]). *)
-From Coq Require Import List Arith Bool.
+From Coq Require Import List Arith NArith Bool.
 From PV Require Import C10_Model C10_Proofs.
 Import ListNotations.
 
@@ -52,7 +52,7 @@ Print Assumptions analysis_invariant.
 
 (* the semantics is not vacuous: writing through a view of a parameter changes it ... *)
 Theorem semantics_sees_view_writes :
-  exists c', exec c_entry (Seq (Assign 1 (EView 0)) (InPlace 1)) ONorm c' /\
+  exists c', exec c_entry (Seq (Assign 1%N (EView 0%N)) (InPlace 1%N)) ONorm c' /\
              ver c' 0 <> ver c_entry 0.
 Proof. exact view_write_changes. Qed.
 Print Assumptions semantics_sees_view_writes.
@@ -61,24 +61,25 @@ Print Assumptions semantics_sees_view_writes.
    rejected and has an execution that modifies the caller's mask; the repaired one is
    accepted (the harness replays the witness on the implementation) *)
 Theorem compute_mask_unrepaired_refuted :
-  accepts [0; 1; 2] compute_mask_defect = false /\
-  exists c c' v, entry_ok [0; 1; 2] c /\ exec c compute_mask_defect (ORet v) c' /\
-                 exists b, In b (st c 2) /\ ver c' b <> ver c b.
+  accepts [0%N; 1%N; 2%N] compute_mask_defect = false /\
+  exists c c' v, entry_ok [0%N; 1%N; 2%N] c /\ exec c compute_mask_defect (ORet v) c' /\
+                 exists b, In b (st c 2%N) /\ ver c' b <> ver c b.
 Proof. exact compute_mask_defect_refuted. Qed.
 Print Assumptions compute_mask_unrepaired_refuted.
 
 Theorem compute_mask_repaired_accepted :
-  accepts [0; 1; 2] compute_mask_fixed = true /\
-  ret_may_alias [0; 1; 2] compute_mask_fixed = Some false.
+  accepts [0%N; 1%N; 2%N] compute_mask_fixed = true /\
+  ret_may_alias [0%N; 1%N; 2%N] compute_mask_fixed = Some false.
 Proof. exact compute_mask_fixed_accepted. Qed.
 Print Assumptions compute_mask_repaired_accepted.
 
 (* premises are satisfiable: an entry state for one parameter holding one buffer *)
-Example entry_ok_satisfiable : entry_ok [0] c_entry.
+Example entry_ok_satisfiable : entry_ok [0%N] c_entry.
 Proof. exact entry_ok_c_entry. Qed.
 
 (* copy-then-write is accepted; write-through-asanyarray is not; a loop that re-binds a
    name to a view of the parameter after cleaning a copy needs the loop invariant *)
+Local Open Scope N_scope.
 Example copy_then_write :
   accepts [0] (Seq (Assign 0 EFresh) (InPlace 0)) = true.
 Proof. vm_compute. reflexivity. Qed.
